@@ -31,6 +31,7 @@ import (
 	"io"
 	"reflect"
 	"strings"
+	"sync/atomic"
 	"syscall"
 	"time"
 
@@ -63,6 +64,7 @@ type ControllableTask struct {
 	rpc                     *executorcmd.RpcClient
 	pendingFinalTaskStateCh chan mesos.TaskState
 	knownPid                int
+	killRequested           int32 // set by the first Kill, which sees the termination through
 }
 
 type CommitResponse struct {
@@ -668,6 +670,15 @@ func (t *ControllableTask) Kill() error {
 		pid          = 0
 		reachedState = "UNKNOWN" // FIXME: should be LAUNCHING or similar
 	)
+	if !atomic.CompareAndSwapInt32(&t.killRequested, 0, 1) {
+		// A kill request for this task is already in progress (e.g. the core asked again after a reconnection): it
+		// has closed or is about to close the control client, and it terminates the task by itself.
+		log.WithField("partition", t.knownEnvironmentId.String()).
+			WithField("detector", t.knownDetector).
+			WithField("taskId", t.ti.GetTaskID()).
+			Debug("kill already in progress for this task, nothing more to do")
+		return nil
+	}
 	// PGID of the containing shell. We must take it now: the launch goroutine resets t.rpc as soon as the task exits
 	pgid := 0
 	if rpc := t.rpc; rpc != nil && rpc.TaskCmd != nil && rpc.TaskCmd.Process != nil {
